@@ -52,6 +52,35 @@ def build(t):
     return guarded(lambda: TM.build(t, "std"))
 
 
+_POOL = None
+
+
+def guarded_thread(fn, secs=30):
+    """run fn() in a (persistent) NON-MAIN thread of this process: claripy keeps a Z3 context, tactics and caches
+    per thread, so the same call takes other paths than in the main thread.  returns (outcome, value)"""
+    global _POOL
+    import concurrent.futures as cf
+    import claripy
+    if _POOL is None:
+        _POOL = cf.ThreadPoolExecutor(max_workers=1, thread_name_prefix="verif-worker")
+    fut = _POOL.submit(fn)
+    try:
+        return "ok", fut.result(timeout=secs)
+    except cf.TimeoutError:
+        _POOL = None            # leave the stuck thread behind, use a fresh one
+        return "Timeout", None
+    except claripy.errors.ClaripyZeroDivisionError:
+        return "ZeroDiv", None
+    except MemoryError:
+        return "MemoryError", None
+    except Exception as ex:  # noqa: BLE001
+        return "PyError:" + type(ex).__name__, None
+
+
+def run_guarded(cx, fn, secs=20):
+    return guarded_thread(fn, secs + 10) if cx.job.get("thread") else guarded(fn, secs)
+
+
 def vars_asgs(terms, job, rng):
     fv = {}
     for t in terms:
@@ -92,7 +121,9 @@ class Ctx:
 
 def ev_equiv(cx, u, a, fn):
     w = TM.ser(a)
-    oc, r = guarded(lambda: fn(a), secs=cx.job.get("budget_s", 20))
+    if cx.job.get("thread"):
+        u = u + "@thread"
+    oc, r = run_guarded(cx, lambda: fn(a), secs=cx.job.get("budget_s", 20))
     if oc == "Timeout":
         # a wall-clock budget is not an answer of the utility (Z3's aig tactic bit-blasts 64-bit divisions for
         # many seconds): counted, not judged
@@ -280,6 +311,47 @@ def ev_canon(cx, a):
     nt = oc == "ok" and len(pairs) > 0
     cx.emit(ev, nontrivial=["canon", w] if nt else None, sample={"utility": "canonicalize", "input": w, "output": rt,
                                                                  "map": pairs} if nt else None)
+
+
+def stream_canonchain(cx):
+    """canonicalize(var_map, counter) threaded through 2-3 expressions"""
+    job, rng = cx.job, cx.rng
+    src = U.canon_chains(job.get("W", 3)) if job.get("chains") == "core" else U.canon_chains_rand(rng, job["n"])
+    for chain in parts(cx, src):
+        asts = []
+        for t in chain:
+            oc, a = build(t)
+            if oc == "ok":
+                asts.append(a)
+        if len(asts) < 2:
+            continue
+
+        def call():
+            vm, ctr, rs = None, None, []
+            for a in asts:
+                vm, ctr, r = a.canonicalize(var_map=vm, counter=ctr)
+                rs.append(r)
+            return vm, rs
+        oc, res = guarded(call)
+        ws = [TM.ser(a) for a in asts]
+        rts, pairs = [], []
+        if oc == "ok":
+            try:
+                vm, rs = res
+                rts = [TM.ser(r) for r in rs]
+                seen = set()
+                for a in asts:
+                    for leaf in a.leaf_asts():
+                        if leaf.op in ("BVS", "BoolS") and leaf.hash() in vm and leaf.args[0] not in seen:
+                            seen.add(leaf.args[0])
+                            pairs.append([leaf.args[0], vm[leaf.hash()].args[0]])
+            except Exception as ex:  # noqa: BLE001
+                oc = "BadResult:" + type(ex).__name__
+        ev = {"k": "canonchain", "u": "canonicalize(chained)", "out": oc, "ws": ws, "rs": rts, "map": pairs}
+        nt = oc == "ok" and len(pairs) > 1
+        cx.emit(ev, nontrivial=["canonchain", ws] if nt else None,
+                sample={"utility": "canonicalize (var_map, counter threaded)", "inputs": ws, "outputs": rts, "map": pairs}
+                if nt and len(pairs) > 2 else None)
 
 
 # ----------------------------------------------------------------------------------------------
@@ -718,6 +790,25 @@ def fp_str_pool():
         ("StrReplace(s,ab,t)==ab", lambda: claripy.StrReplace(s, ab, t) == ab),
         ("IntToStr(x64)==ab", lambda: claripy.IntToStr(claripy.BVS("x64", 64, explicit_name=True)) == ab),
     ]
+    # every rounding mode under every operator that takes one (the round trip must hand the same mode back)
+    for m in claripy.fp.RM:
+        n = m.value
+        P += [
+            ("fpLT(fpAdd[%s](f,g),1)" % n, lambda m=m: claripy.fpLT(claripy.fpAdd(m, f, g), one)),
+            ("fpLT(fpSub[%s](f,g),g)" % n, lambda m=m: claripy.fpLT(claripy.fpSub(m, f, g), g)),
+            ("fpGT(fpMul[%s](f,g),1)" % n, lambda m=m: claripy.fpGT(claripy.fpMul(m, f, g), one)),
+            ("fpLEQ(fpDiv[%s](f,g),f)" % n, lambda m=m: claripy.fpLEQ(claripy.fpDiv(m, f, g), f)),
+            ("fpEQ(fpSqrt[%s](f),g)" % n, lambda m=m: claripy.fpEQ(claripy.fpSqrt(m, f), g)),
+            ("fpLT(fpToFP[%s](dd,F),1)" % n, lambda m=m: claripy.fpLT(claripy.fpToFP(m, dd, F), one)),
+            ("fpLT(fpToFP[%s](x signed),1)" % n, lambda m=m: claripy.fpLT(claripy.fpToFP(m, x, F), one)),
+            ("fpLT(fpToFPUnsigned[%s](x),1)" % n, lambda m=m: claripy.fpLT(claripy.fpToFPUnsigned(m, x, F), one)),
+            ("fpToSBV[%s](f)==x" % n, lambda m=m: claripy.fpToSBV(m, f, 32) == x),
+            ("fpToUBV[%s](f)==x" % n, lambda m=m: claripy.fpToUBV(m, f, 32) == x),
+            ("fpAdd[%s](fpMul[RNE](f,g),g) (FP-sorted)" % n,
+             lambda m=m: claripy.fpAdd(m, claripy.fpMul(claripy.fp.RM.RM_NearestTiesEven, f, g), g)),
+            ("And(fpIsNaN(fpDiv[%s](f,g)),fpLT(g,1))" % n,
+             lambda m=m: claripy.And(claripy.fpIsNaN(claripy.fpDiv(m, f, g)), claripy.fpLT(g, one))),
+        ]
     return P
 
 
@@ -733,13 +824,27 @@ def stream_fpstr(cx):
         if oct != "ok":
             cx.emit({"k": "outcome", "u": "untranslatable", "out": "ok", "f": "convert", "desc": desc, "built": oct})
             continue
-        oc3, r = guarded(lambda: claripy.simplify(a))
-        ev = {"k": "outcome", "u": "simplify", "out": oc3, "f": "claripy.simplify", "desc": desc, "built": "ok"}
-        cx.emit(ev, nontrivial=["fpstr", "any", desc], sample={"expr": desc, "outcome": oc3})
+        th = "@thread" if cx.job.get("thread") else ""
+        oc3, r = run_guarded(cx, lambda: claripy.simplify(a))
+        if oc3 == "Timeout":        # a wall-clock budget is not an answer (see ev_equiv): counted, not judged
+            oo = cx.out.stats["outcomes"]
+            oo["outcome:simplify" + th + ":Timeout(skipped)"] = oo.get("outcome:simplify" + th + ":Timeout(skipped)", 0) + 1
+            continue
+        ev = {"k": "outcome", "u": "simplify" + th, "out": oc3, "f": "claripy.simplify" + th, "desc": desc, "built": "ok"}
+        cx.emit(ev, nontrivial=["fpstr", "any" + th, desc], sample={"expr": desc, "outcome": oc3})
+        if oc3 == "ok" and is_ast(r):
+            # structural clause: the rounding modes / target sorts named in the expression survive the round trip
+            try:
+                w, rt = TM.ser(a), TM.ser(r)
+            except Exception:  # noqa: BLE001
+                continue
+            ev = {"k": "fprt", "u": "simplify" + th, "out": "ok", "w": w, "r": rt, "desc": desc}
+            cx.emit(ev, nontrivial=["fprt", th, desc] if "[" in desc else None,
+                    sample={"expr": desc, "input": w, "output": rt} if "[RM_RT" in desc else None)
 
 
 STREAMS = {"ite": stream_ite, "subst": stream_subst, "cases": stream_cases, "dict": stream_dict,
-           "slices": stream_slices, "identical": stream_identical, "simplify": stream_simplify,
+           "slices": stream_slices, "identical": stream_identical, "simplify": stream_simplify, "canonchain": stream_canonchain,
            "z3abs": stream_z3abs, "fpstr": stream_fpstr}
 
 
